@@ -238,7 +238,7 @@ def handles():
             gc.enable()
 
 
-def write_foreign(f, path):
+def write_foreign(f, path, strings=False):
     """the content of the in-memory file f written with netCDF4 directly, the
     way other tools write archive files: float data variables PACKED (int16
     with scale_factor / add_offset), masks as _FillValue.  What the file
@@ -287,6 +287,17 @@ def write_foreign(f, path):
                 nv.setncatts(atts)
                 if v.ndim == 0 or 0 not in data.shape:
                     nv[...] = a
+        if strings:
+            # a netCDF string variable (station names, labels) on the first
+            # dimension that has a length
+            for k, dm in f.dimensions.items():
+                if len(dm) > 0 and not dm.isunlimited() and \
+                        'labels' not in f.variables:
+                    sv = ds.createVariable('labels', str, (k,))
+                    sv.long_name = 'labels along %s' % k
+                    sv[:] = np.array(['label %d of %s' % (i, k) * (1 + i % 3)
+                                      for i in range(len(dm))], dtype=object)
+                    break
     finally:
         ds.close()
 
@@ -308,7 +319,8 @@ def to_disk(f, d, h, name='src.nc', fmt='netcdf', res=None, foreign=False):
             zlib.crc32(key.encode()) % 3 == 0
         if foreign:
             try:
-                write_foreign(f, path)
+                write_foreign(f, path,
+                              strings=zlib.crc32(key.encode()) % 9 == 0)
             except Exception:
                 foreign = False
                 if os.path.exists(path):
